@@ -93,6 +93,16 @@ class ExprMixin:
         ke = self.to_elem(k, d.kty)
         has = self.dict_has(d, ke)
         keys = z3.If(has, d.keys, z3.Concat(d.keys, z3.Unit(ke)))
+        if not self.in_spec and st is not None and not z3.is_true(z3.simplify(has)) and not z3.is_false(z3.simplify(has)):
+            # purified description of the new key sequence (as for list.append): quantified invariants over the keys are
+            # discharged from length / element facts about a fresh name, not from the sequence solver on If(.., Concat(..))
+            r = z3.Const(fresh_name("keys"), keys.sort())
+            n = z3.Length(d.keys)
+            j = z3.Int(fresh_name("j"))
+            st.assume(r == keys)
+            st.assume(z3.Implies(has, r == d.keys))
+            st.assume(z3.Implies(z3.Not(has), z3.And(z3.Length(r) == n + 1, r[n] == ke, z3.ForAll([j], z3.Implies(z3.And(0 <= j, j < n), r[j] == d.keys[j])))))
+            keys = r
         return VDict(d.kty, d.vty, keys, dict_store(d, ke, v), d.default)
 
     def dict_has(self, d, ke):
